@@ -947,7 +947,9 @@ func (m *repoManager) versionFromUUID(uuid dvid.UUID) (dvid.VersionID, error) {
 //
 // Example 2: ":master" returns the leaf UUID of branch "master" if there is only one repo.
 func (m *repoManager) matchingUUID(str string) (dvid.UUID, dvid.VersionID, error) {
-	splits := strings.Split(str, ":")
+	// A UUID holds no colon, so everything after the first one is the branch name
+	// (which may itself contain colons).
+	splits := strings.SplitN(str, ":", 2)
 	var branch string
 	if len(splits) == 2 {
 		branch = splits[1]
@@ -955,8 +957,6 @@ func (m *repoManager) matchingUUID(str string) (dvid.UUID, dvid.VersionID, error
 			return m.getBranchVersion(dvid.NilUUID, branch)
 		}
 		str = splits[0]
-	} else if len(splits) > 2 {
-		return dvid.NilUUID, 0, fmt.Errorf("bad UUID specification %q", str)
 	}
 
 	var bestVersion dvid.VersionID
